@@ -39,6 +39,10 @@ CATALOGUE = {
     "io_format": "program o\n  open(unit=10, file='x')\n  write(10, 100) 1, 2.0\n100 format(i5, 1x, f10.3)\n  read(*, *) a\n  close(10)\nend program o\n",
     "long_lists": "program l\n  integer :: idx(12), m(3, 3), i\n  real :: v(12)\n  common /blk/ idx, v\n  data idx / 1, 2, 3, 1, 2, 3, 1, 2, 3, 4, 1, 2 /\n  v = (/ 1.0, 2.0, 1.0, 2.0, 1.0, 2.0, 1.0, 2.0, 1.0, 2.0, 1.0, 2.0 /)\n  m(1, 1) = max(i, i, i, i, i, i, i, i, i, i)\n  write(*, 100) i, i, i, i, i, i, i, i, i, i\n100 format(i2, i2, i2, i2, 1x, i2, i2, i2, 1x, i2, i2, i2)\n  do i = 1, 3\n    m(i, i) = i\n  end do\nend program l\n",
     "repeats": "subroutine r\n  real x, y, z, w, u(2), t(2)\n  integer k, l\n  real(kind=8) :: d1\n  real(kind=8) :: d2\n  character(len=10) :: c1\n  character(len=10) :: c2\n  integer*4 i4a\n  integer*4 i4b\n  common /a/ x, y /b/ z /a/ w\n  namelist /g/ x, y /h/ z /g/ w\n  equivalence (u(1), t(1)), (u(1), k), (u(1), l)\n  data k /1/, l /1/\n  save /a/, /b/, /a/\n  x = x + x * x\n  call s(x, x, x)\n  if (x > x) x = x\nend subroutine r\n",
+    "named_constructs": ("subroutine nm(a, n)\n  integer :: n, i\n  real :: a(n)\n  lp: do i = 1, n\n    chk: if (a(i) > 0) then\n      a(i) = 1\n    else if (a(i) < 0) then chk\n"
+                           "      a(i) = 2\n    else chk\n      a(i) = 3\n    end if chk\n  end do lp\n  pick: select case (n)\n  case (1) pick\n    a = 4\n  case default pick\n    a = 5\n"
+                           "  end select pick\n  wh: where (a > 0)\n    a = 6\n  elsewhere wh\n    a = 7\n  end where wh\n  as: associate (b => a(1))\n    b = 8\n  end associate as\n"
+                           "  fa: forall (i = 1:n)\n    a(i) = 9\n  end forall fa\nend subroutine nm\n"),
     "two_units": "subroutine a\nend subroutine a\nfunction b()\n  b = 1\nend function b\n",
 }
 F2008_EXTRA = {
@@ -250,10 +254,7 @@ def main(argv):
                                 "    outer: do i = 1, n\n      if (a(i) > 0) then\n        where (a > 1)\n          a = 1\n        end where\n      else\n        forall (i = 1:n)\n          a(i) = 0\n"
                                 "        end forall\n      end if\n    end do outer\n    associate (b => a(1))\n      b = 2\n    end associate\n    select case (n)\n    case (1)\n      a = 3\n    end select\n"
                                 "    do 30 i = 1, n\n      a(i) = 4\n30  continue\n    do 40 i = 1, n\n40  a(i) = 5\n  end subroutine s\nend module c\n")
-        nested["named"] = ("subroutine nm(a, n)\n  integer :: n, i\n  real :: a(n)\n  lp: do i = 1, n\n    chk: if (a(i) > 0) then\n      a(i) = 1\n    else if (a(i) < 0) then chk\n"
-                           "      a(i) = 2\n    else chk\n      a(i) = 3\n    end if chk\n  end do lp\n  pick: select case (n)\n  case (1) pick\n    a = 4\n  case default pick\n    a = 5\n"
-                           "  end select pick\n  wh: where (a > 0)\n    a = 6\n  elsewhere wh\n    a = 7\n  end where wh\n  as: associate (b => a(1))\n    b = 8\n  end associate as\n"
-                           "  fa: forall (i = 1:n)\n    a(i) = 9\n  end forall fa\nend subroutine nm\n")
+        nested["named"] = CATALOGUE["named_constructs"]
         # an END statement whose construct name differs from the opening one (or is dropped where the opener has one)
         for name in ("named",):
             lines = nested[name].splitlines()
@@ -348,6 +349,21 @@ def main(argv):
                 # vertical tab, NEL, unicode separators) inside earlier lines must not shift the reported position
                 decorations = [[], ["\x0c", "  ! page\x0bbreak \x1c \x85 \u2028 here"],
                                ["  integer :: zz1, &", "  ! comment inside the continuation", "", "     zz2, &", "", "     zz3"]]
+                # a continued offending statement followed by comment lines: the location is the line the statement ends on
+                for tail in ([], ["  ! a comment after the statement", "! another"]):
+                    glines = ["  @@ not &", "     fortran &", "     at all @@"]
+                    src = "\n".join(lines[:li] + glines + tail + lines[li + 1:]) + "\n"
+                    cases += 1
+                    lineno = li + len(glines)
+                    try:
+                        parse(src, "f2003")
+                        fail("error#garbage_rejected", dict(source=src), "accepted")
+                    except FortranSyntaxError as e:
+                        want = "at line %d\n>>>%s\n" % (lineno, glines[-1])
+                        if not str(e).startswith(want):
+                            fail("error#names_offending_line", dict(source=src, line=lineno, continued=True, comments_after=bool(tail)), dict(message=str(e)[:120], expected_prefix=want))
+                    except BaseException as e:  # noqa
+                        fail("error#garbage_rejected", dict(source=src), "raised %s" % type(e).__name__)
                 for garbage in ("@@ not fortran @@", "= = ="):
                     for deco in decorations:
                         src = "\n".join(lines[:1] + deco + lines[1:li] + ["  " + garbage] + lines[li + 1:]) + "\n"
